@@ -17,6 +17,7 @@ func runC06(c *Ctx) {
 	c.Clause("C06.2 OnAcked only from detectAndRemoveAckedPackets, OnLost only from queueFramesForRetransmission/detectLostPathProbes; frames cleared after OnLost; every retransmission queuing is paired with DeclareLost (or a replaced space); every OnAcked iteration is followed by history.Remove")
 	c.Clause("C06.3 ACK for unsent / skipped packet numbers is PROTOCOL_VIOLATION before any packet is treated as acknowledged")
 	c.Clause("C06.4 loss-detection timer is re-armed after every event that changes what is outstanding; lossDetectionTime cancels only on its two documented conditions")
+	c.Clause("C06.11 QueueProbePacket releases the packet's bytes in flight unconditionally and before its frames are cleared; ResetForRetry zeroes bytes in flight on every path")
 	c.Clause("C06.8 the anti-deadlock probe of OnLossDetectionTimeout fires under exactly the condition getPTOTimeAndSpace arms the timer with; C06.9 the client marks the server's address validation complete only on a Handshake ACK or when the Handshake keys are dropped; C06.10 an ACK whose lowest acknowledged number is below the first number of the space is rejected")
 	c.Clause("C06.7 SentPacket: a packet counted in flight records its send time as the space's last ack-eliciting send time, and the timer is re-armed before returning")
 	c.Clause("C06.6 no loop that ranges over an iterator of the sent-packet / lost-packet / received-packet histories calls a method that compacts the iterated slice in place")
@@ -35,6 +36,7 @@ func runC06(c *Ctx) {
 	c.rule("C06.8", func() { c06AntiDeadlockArmAndFireAgree(c) })
 	c.rule("C06.9", func() { c06ClientValidationOnlyOnHandshakeAck(c) })
 	c.rule("C06.10", func() { c06AckLowerBound(c) })
+	c.rule("C06.11", func() { c06WholesaleRemovalKeepsBytesInFlight(c) })
 }
 
 // ifaceCallSites: invoke calls of an interface method plus static calls of concrete
